@@ -104,3 +104,49 @@ def std_cases(rng, tables, n_per_table, exact=False, budget=0, back=True, tag="t
                 ops.append(gen_bwd_op(rng, t, inp, mode=mode))
         cases.append(common.Case("%s%d" % (tag, ti), setup, ops, {"table": t}))
     return cases
+
+
+# ---------------------------------------------------------------------------------------------
+# wide generated tables (gen_features.py): every opcode family with operands of unusual shapes,
+# inputs built from the rules' own strings, emphasis typeforms, capacity sweeps
+def wide_cases(rng, ntab, per_table=8, back=True, exact=True, budget=0, tag="w", modes_f=None, modes_b=None, argmasks=None):
+    from . import gen_features as GF
+    cases = []
+    for i in range(ntab):
+        w = GF.gen(rng)
+        tn = "%s%d.ctb" % (tag, i)
+        setup = ["HOOK trace 1"]
+        if exact:
+            setup.append("HOOK exact 1")
+        if budget:
+            setup.append("HOOK budget %d" % budget)
+        setup.append("TBL %s %s" % (tn, common.hexbytes(w.text)))
+        ops = []
+        for _ in range(per_table):
+            u = GF.text_for(rng, w)
+            n = len(u)
+            mode = rng.choice(modes_f or [0, 0, 0, 4, 4, 1, 4 | 64, 128, 4 | 128, 2, 32, 2 | 4, 64])
+            am = rng.choice(argmasks or [31, 31, 29, 28, 12, 0, 16, 1, 5, 20])
+            caps = [32 * n + 256] + [rng.randint(0, 3 * n + 3) for _ in range(3)]
+            tfl = GF.typeform_for(rng, w, n)
+            for cap in caps:
+                op = gen_fwd_op(rng, tn, inp=u, mode=mode, cap=cap, argmask=am)
+                tt = op.split(" ")
+                tt[1] = tn
+                if am & 1:
+                    tt[7] = common.wide(tfl)
+                ops.append(" ".join(tt))
+        if back:
+            for _ in range(max(1, per_table // 2)):
+                u = GF.cells_for(rng, w)
+                n = len(u)
+                mode = rng.choice(modes_b or [4, 4, 4 | 256, 4 | 128, 4 | 1])
+                caps = [32 * n + 256] + [rng.randint(0, 3 * n + 3) for _ in range(2)]
+                for cap in caps:
+                    op = gen_bwd_op(rng, tn, u, mode=mode, cap=cap)
+                    tt = op.split(" ")
+                    tt[1] = tn
+                    ops.append(" ".join(tt))
+        cases.append(common.Case("%s%d" % (tag, i), setup, ops, {"table": tn, "kind": "wide", "text": w.text,
+                                                                  "features": sorted(w.features)}))
+    return cases
